@@ -42,6 +42,18 @@ fn calc_size_by_wrong_positives(num_entries: usize, wrongs: f64) -> EntriesLocs 
     }
 }
 
+/// Spreads the bits of `hash` (the finalizer of splitmix64, a bijection on `u64`) before the probe
+/// positions are derived from its highest and lowest bits: hashes that differ only in a few bits
+/// (integer keys through `TransparentKeyBuilder`, say) would otherwise share most of their probes
+/// and the false-positive rate would be many times the configured one.
+#[inline]
+fn mix(hash: u64) -> u64 {
+    let mut z = hash;
+    z = (z ^ (z >> 30)).wrapping_mul(0xbf58_476d_1ce4_e5b9);
+    z = (z ^ (z >> 27)).wrapping_mul(0x94d0_49bb_1331_11eb);
+    z ^ (z >> 31)
+}
+
 /// Bloom filter
 #[repr(C)]
 pub(crate) struct Bloom {
@@ -119,6 +131,7 @@ impl Bloom {
 
     /// `add` adds hash of a key to the bloom filter
     pub fn add(&mut self, hash: u64) {
+        let hash = mix(hash);
         let h = hash >> self.shift;
         let l = (hash << self.shift) >> self.shift;
         (0..self.set_locs).for_each(|i| {
@@ -130,6 +143,7 @@ impl Bloom {
     /// `contains` checks if bit(s) for entry hash is/are set,
     /// returns true if the hash was added to the Bloom Filter.
     pub fn contains(&self, hash: u64) -> bool {
+        let hash = mix(hash);
         let h = hash >> self.shift;
         let l = (hash << self.shift) >> self.shift;
         for i in 0..self.set_locs {
